@@ -306,7 +306,10 @@ class Evaluator:
         for el in p['p']:
             if el == '*':
                 v = self.read_place(st, cur, None)
-                cur = ('deref', v)
+                if v[0] in ('ref', 'rawptr'):
+                    cur = v[1]
+                else:
+                    cur = ('deref', v)
             elif isinstance(el, dict) and 'f' in el:
                 cur = ('pfield', cur, el['f'])
             elif isinstance(el, dict) and 'dc' in el:
@@ -720,6 +723,14 @@ def classify_bool_expr(d):
             if op == 'Ne':
                 return ('full_eq', False)
             return ('unrec:len-capacity', True)
+        if is_state_read(a) and b[0] == 'const':
+            key = (op, b[2])
+            tbl = {('Lt', '2'): ('sig_done', True), ('Ge', '2'): ('sig_done', False), ('Le', '1'): ('sig_done', True),
+                   ('Gt', '1'): ('sig_done', False), ('Eq', '0'): ('sig_unlocked', True), ('Ne', '0'): ('sig_unlocked', False),
+                   ('Eq', '1'): ('sig_term', True), ('Ne', '1'): ('sig_term', False)}
+            if key in tbl:
+                return tbl[key]
+            return ('unrec:state-compare(%s %s)' % key, True)
         # size predicates
         sa = is_call(a, 'std::mem::size_of')
         sb = is_call(b, 'std::mem::size_of')
@@ -810,6 +821,31 @@ def classify_bool_expr(d):
     return None
 
 
+ATOMIC_READ_METHODS = ('load', 'compare_exchange', 'compare_exchange_weak', 'swap', 'fetch_or', 'fetch_and', 'fetch_add',
+                       'fetch_sub', 'fetch_update', 'fetch_xor', 'fetch_max', 'fetch_min', 'fetch_nand')
+ATOMIC_WRITE_METHODS = ('store', 'compare_exchange', 'compare_exchange_weak', 'swap', 'fetch_or', 'fetch_and', 'fetch_add',
+                        'fetch_sub', 'fetch_update', 'fetch_xor', 'fetch_max', 'fetch_min', 'fetch_nand', 'get_mut', 'as_ptr',
+                        'into_inner', 'from_mut', 'from_ptr')
+
+
+def atomic_method(name):
+    """'load' for std::sync::atomic::Atomic::load / AtomicU8::load, else None"""
+    if name.startswith('std::sync::atomic::Atomic'):
+        return name.split('::')[-1]
+    return None
+
+
+def is_state_read(v):
+    """value produced by an atomic read of a `state` field (directly, or the payload of a CAS result)"""
+    if v[0] == 'call' and atomic_method(v[2]) in ATOMIC_READ_METHODS and v[3]:
+        r = v[3][0]
+        if r[0] in ('ref', 'rawptr') and r[1][0] == 'pfield' and r[1][2] == 'state':
+            return True
+    if v[0] == 'field' and v[1][0] == 'downcast' and v[1][2] in ('Ok', 'Err'):
+        return is_state_read(v[1][1])
+    return False
+
+
 def strip_ref_value(v):
     """for `&local` arguments whose referent value we snapshot: ('refval', value)"""
     if v[0] in ('ref', 'rawptr') and len(v) > 2 and v[2] is not None:
@@ -890,8 +926,8 @@ def discr_label(v):
             'signal::Signal::poll': 'sigpoll',
             'std::future::Future::poll': 'futpoll',
             'std::iter::Iterator::next': 'iter_next',
-            'std::sync::atomic::AtomicU8::compare_exchange': 'cas',
-            'std::sync::atomic::AtomicBool::compare_exchange': 'cas',
+            'std::sync::atomic::Atomic::compare_exchange': 'cas',
+            'std::sync::atomic::Atomic::compare_exchange_weak': 'cas',
         }.get(v[2])
         if short:
             return short
